@@ -84,6 +84,14 @@ func isComparable(l, r reflect.Type) bool {
 	return false
 }
 
+func isNilable(t reflect.Type) bool {
+	switch t.Kind() {
+	case reflect.Ptr, reflect.Slice, reflect.Map, reflect.Interface, reflect.Func, reflect.Chan:
+		return true
+	}
+	return false
+}
+
 func isInterface(t reflect.Type) bool {
 	t = dereference(t)
 	if t != nil {
